@@ -33,6 +33,8 @@ ASSUMPTIONS = ["dict/set/struct equality and ordering are checked against the sp
 
 K_F1 = "C09/hash-incoherent/bigint-vs-float"
 K_F3 = "C09/eq-not-transitive/int-float-above-2^53"
+K_PANIC_INCOMPARABLE = "C09/sorted-panics/incomparable-elements"
+K_PANIC_F3 = "C09/sorted-panics/int-float-above-2^53"
 P53 = 2 ** 53
 IMIN, IMAX = -2 ** 31, 2 ** 31 - 1
 
@@ -957,6 +959,651 @@ def compare_model(row, info, cases, res):
     return bad
 
 
+# ---------------------------------------------------------------------------------------------------------
+# sorted() / min() / max() over lists of length 0..200 (and beyond) that contain many elements which compare equal
+# but can be told apart (1 / 1.0, 0 / 0.0 / -0.0, tuples and lists of such twins), with and without key=, both
+# directions, in several initial orders.  The oracle is the specification "stable sort of the keys under the exact
+# order" (and for a sample of the lists the Coq model's isort through Eq/Cases.v); results are compared as the exact
+# sequence of (value, type) so that the position of `1` relative to `1.0` is visible.
+
+# lengths straddle the thresholds of the usual sort algorithms (insertion sort <= 16/20, small-sort <= 32, run
+# detection / pseudo-median at 64 and 128, on-stack scratch buffers of 256 / 512 elements, sqrt run length above 4096)
+SORT_LENS = [0, 1, 2, 3, 4, 5, 8, 9, 10, 15, 16, 17, 19, 20, 21, 22, 24, 31, 32, 33, 34, 40, 48, 50, 63, 64, 65, 96, 100,
+             127, 128, 129, 150, 200]
+SORT_LENS_LONG = [255, 256, 257, 300, 511, 512, 513, 1000]
+SORT_LENS_HUGE = [2047, 2048, 2049, 4095, 4096, 4097, 5000]
+SORT_ORDERS = ["random", "sorted", "reversed", "few", "runs", "sawtooth", "organ", "nearly", "allequal", "blocks", "tail"]
+SORT_FLAVOURS = ["num", "num", "num-half", "tuple1", "tuple2", "list1", "nested", "zeros", "strtuple", "tagged", "ints", "strs", "special"]
+NUM_FLAVOURS = ("num", "num-half", "zeros", "ints", "special")
+TUPLE_FLAVOURS = ("tuple1", "tuple2", "nested", "strtuple", "tagged")
+SORT_MODEL_MAX_N = 200
+
+
+def rank_seq(n, order, rng):
+    """n ranks (small non-negative integers; equal ranks become equal keys) in the given initial order."""
+    if n == 0:
+        return []
+    k = rng.choice([2, 3, 4, 5, 8, 12, 20, 40])
+    if order == "few":
+        k = rng.choice([1, 2, 2, 3, 4])
+    if order == "allequal":
+        k = 1
+    rs = [rng.randrange(k) for _ in range(n)]
+    if order == "sorted":
+        return sorted(rs)
+    if order == "reversed":
+        return sorted(rs, reverse=True)
+    if order == "runs":
+        out = []
+        while len(out) < n:
+            run = sorted(rng.randrange(k) for _ in range(rng.choice([1, 2, 3, 5, 8, 16, 20, 33, 64])))
+            if rng.random() < 0.3:
+                run.reverse()
+            out += run
+        return out[:n]
+    if order == "sawtooth":
+        p = rng.choice([2, 3, 5, 7, k])
+        return [(i % p) % k for i in range(n)]
+    if order == "organ":
+        s = sorted(rs)
+        return s[::2] + s[1::2][::-1]
+    if order == "nearly":
+        s = sorted(rs)
+        for _ in range(rng.choice([1, 2, 3, 5])):
+            i, j = rng.randrange(n), rng.randrange(n)
+            s[i], s[j] = s[j], s[i]
+        return s
+    if order == "blocks":
+        b = rng.choice([2, 4, 8, 16, 32])
+        return [((n - 1 - i) // b) % k for i in range(n)]
+    if order == "tail":
+        t = min(n, rng.choice([1, 2, 3, 8]))
+        return sorted(rs[:n - t]) + rs[n - t:]
+    return rs          # random / few / allequal
+
+
+def num_rep(z, as_float, rng):
+    """The number z (|z| <= 2^53) as an int or as the float equal to it (zero: 0.0 or -0.0)."""
+    if not as_float:
+        return ("int", z)
+    if z == 0 and rng.random() < 0.5:
+        return ("float", f2bits(-0.0))
+    return ("float", f2bits(float(z)))
+
+
+SPECIAL_LADDER = [("f", float("-inf")), ("z", -2 ** 40), ("z", -1), ("z", 0), ("f", 0.5), ("z", 1), ("f", 1.5), ("z", 2 ** 31),
+                  ("z", 2 ** 40), ("f", 1e300), ("f", float("inf")), ("nan", None)]
+
+
+def make_elems(flavour, ranks, rng):
+    n = len(ranks)
+    mode = rng.choice(["rand", "rand", "rand", "alt", "halves", "mostly-int", "mostly-float"])
+
+    def fl(i):
+        if mode == "alt":
+            return i % 2 == 1
+        if mode == "halves":
+            return i >= n // 2
+        return rng.random() < {"rand": 0.5, "mostly-int": 0.15, "mostly-float": 0.85}[mode]
+    base = rng.choice([0, 0, 0, -3, 2 ** 31 - 3, -(2 ** 31) - 2, 2 ** 40, 2 ** 53 - 64])
+    m = rng.choice([2, 3, 4])
+    out = []
+    for i, r in enumerate(ranks):
+        if flavour == "num":
+            v = num_rep(base + r, fl(i), rng)
+        elif flavour == "num-half":
+            b = base if abs(base) <= 3 else 0
+            v = num_rep(b + r // 2, fl(i), rng) if r % 2 == 0 else ("float", f2bits(b + r / 2))
+        elif flavour == "tuple1":
+            v = ("tuple", [num_rep(base + r, fl(i), rng), ("str", "a")])
+        elif flavour == "tuple2":
+            v = ("tuple", [num_rep(r // m, fl(i), rng), num_rep(r % m, rng.random() < 0.5, rng)])
+        elif flavour == "list1":
+            v = ("list", [num_rep(base + r, fl(i), rng)])
+        elif flavour == "nested":
+            v = ("tuple", [num_rep(r // 2, fl(i), rng), ("tuple", [num_rep(r % 2, rng.random() < 0.5, rng), ("str", "x")])])
+        elif flavour == "zeros":
+            v = num_rep(0, fl(i), rng)
+        elif flavour == "strtuple":
+            v = ("tuple", [("str", "k%02d" % r), num_rep(0, fl(i), rng)])
+        elif flavour == "tagged":
+            v = ("tuple", [num_rep(base + r, fl(i), rng), ("int", i)])
+        elif flavour == "ints":
+            v = ("int", r - 3)
+        elif flavour == "strs":
+            v = ("str", "%02d" % r + "".join(rng.choice("ab") for _ in range(rng.choice([0, 0, 1, 2]))))
+        elif flavour == "special":
+            kd, x = SPECIAL_LADDER[r % len(SPECIAL_LADDER)]
+            v = num_rep(x, fl(i), rng) if kd == "z" else ("float", NAN_BITS if kd == "nan" else f2bits(x))
+        else:
+            raise ValueError(flavour)
+        out.append(v)
+    return out
+
+
+def lit_src(v):
+    t = v[0]
+    if t == "int":
+        return "%d" % v[1]
+    if t == "float":
+        return float_src(v[1])
+    if t == "str":
+        return slit(v[1])
+    if t == "tuple":
+        return "(%s%s)" % (", ".join(lit_src(x) for x in v[1]), "," if len(v[1]) == 1 else "")
+    if t == "list":
+        return "[%s]" % ", ".join(lit_src(x) for x in v[1])
+    if t == "bool":
+        return "True" if v[1] else "False"
+    return "None"
+
+
+def _neg(v):
+    return ("int", -v[1]) if v[0] == "int" else ("float", v[1] ^ (1 << 63))
+
+
+def _abs(v):
+    return ("int", abs(v[1])) if v[0] == "int" else ("float", v[1] & ~(1 << 63))
+
+
+# key functions: name -> (Starlark source, the same function on abstract values)
+def key_fn(name):
+    if name.startswith("div"):
+        m = int(name[3:])
+        return "lambda x: x // %d" % m, lambda v: ("int", v[1] // m)
+    if name.startswith("mod"):
+        m = int(name[3:])
+        return "lambda x: x %% %d" % m, lambda v: ("int", v[1] % m)
+    return {
+        "ident": ("lambda x: x", lambda v: v),
+        "neg": ("lambda x: -x", _neg),
+        "abs": ("abs", _abs),
+        "const": ("lambda x: 0", lambda v: ("int", 0)),
+        "wrap": ("lambda x: (x,)", lambda v: ("tuple", [v])),
+        "wrap2": ("lambda x: [0.0, x]", lambda v: ("list", [("float", 0), v])),
+        "fst": ("lambda t: t[0]", lambda v: v[1][0]),
+        "snd": ("lambda t: t[1]", lambda v: v[1][1]),
+        "len": ("len", lambda v: ("int", len(v[1]))),
+        "pre": ("lambda s: s[:2]", lambda v: ("str", v[1][:2])),
+        "pre1": ("lambda s: s[:1]", lambda v: ("str", v[1][:1])),
+    }[name]
+
+
+def key_names_for(flavour):
+    ks = ["ident", "const", "wrap", "wrap2"]
+    if flavour in NUM_FLAVOURS and flavour != "special":
+        ks += ["neg", "abs"]
+    if flavour == "special":
+        ks += ["neg"]
+    if flavour in TUPLE_FLAVOURS:
+        ks += ["fst", "fst", "snd"]
+    if flavour == "ints":
+        ks += ["div2", "div5", "mod2", "mod3", "mod7"]
+    if flavour == "strs":
+        ks += ["len", "pre", "pre1"]
+    return ks
+
+
+def form_src(f, n):
+    """Starlark source of one observation on the list XS."""
+    it = f.get("it", "XS")
+    if f["kind"] == "sorted":
+        if f["out"] == "index":
+            args = ["range(%d)" % n, "key = lambda i: XS[i]"]
+        else:
+            args = [it] + (["key = %s" % key_fn(f["key"])[0]] if f["key"] else [])
+        if f["rev"]:
+            args.append("reverse = True")
+        return "sorted(%s)" % ", ".join(args)
+    kw = ["key = %s" % key_fn(f["key"])[0]] if f["key"] else []
+    args = kw + ["*XS"] if f.get("star") else [it] + kw          # a named argument has to precede *args
+    return "%s(%s)" % (f["kind"], ", ".join(args))
+
+
+def sort_forms(flavour, n, rng, expect_err=False):
+    its = ["XS", "XS", "tuple(XS)", "XS[:]", "list(XS)"]
+    forms = [{"kind": "sorted", "key": None, "rev": False, "out": "elems", "it": rng.choice(its)},
+             {"kind": "sorted", "key": None, "rev": True, "out": "elems", "it": rng.choice(its)}]
+    ks = key_names_for(flavour) if not expect_err else ["ident", "wrap"]
+    for kn in rng.sample(ks, min(3, len(ks))):
+        forms.append({"kind": "sorted", "key": kn, "rev": rng.random() < 0.5, "out": "elems", "it": rng.choice(its)})
+    if n <= 300:
+        forms.append({"kind": "sorted", "key": None, "rev": rng.random() < 0.5, "out": "index"})
+    for kind_ in ("min", "max"):
+        forms.append({"kind": kind_, "key": None, "it": rng.choice(its), "star": n >= 2 and n <= 200 and rng.random() < 0.3})
+        forms.append({"kind": kind_, "key": rng.choice(ks), "it": "XS", "star": n >= 2 and n <= 200 and rng.random() < 0.2})
+    return forms
+
+
+def sort_case(elems, forms, tag, rng=None, frozen=False, info=None):
+    """A harness case observing `forms` on the list XS of `elems`.  With rng, some elements go through a random
+    construction path (others, and all elements without rng, are literals)."""
+    parts = [(src_of(v, rng)[1] if rng is not None and rng.random() < 0.1 else lit_src(v)) for v in elems]
+    body = "[%s]" % ", ".join(parts)
+    if frozen:
+        lib, src = "L = %s\n" % body, "load('lib.star', 'L')\nXS = L\n"
+    else:
+        lib, src = None, "XS = %s\n" % body
+    n = len(elems)
+    return {"lib": lib, "src": src, "values": ["XS"], "exprs": [form_src(f, n) for f in forms],
+            "meta": dict({"kind": "sort", "tag": tag, "n": n, "forms": forms, "intended": [encode_abs(v) for v in elems]}, **(info or {}))}
+
+
+def corpus_sort_cases():
+    """Hand-written / minimised lists (corpus/C09/*.json, key "sort_lists"), run first, literal elements."""
+    import glob
+    import json
+    import os
+    out = []
+    for p in sorted(glob.glob(os.path.join(sv.ROOT, "corpus", "C09", "*.json"))):
+        for e in json.load(open(p)).get("sort_lists", []):
+            elems = [decode_abs(x) for x in e["elems"]]
+            out.append(sort_case(elems, e["forms"], "corpus:" + e.get("name", os.path.basename(p)), None,
+                                 frozen=bool(e.get("frozen")), info=dict({"flavour": e.get("flavour", "corpus"), "order": e.get("order", "fixed")},
+                                           **({"expect_err": True} if e.get("expect_err") else {}))))
+    return out
+
+
+def gen_sort_cases(ctx, scale=1.0):
+    rng = ctx.rng
+    cases = []
+
+    def one(n, flavour, order, tag):
+        ranks = rank_seq(n, order, rng)
+        elems = make_elems(flavour, ranks, rng)
+        cases.append(sort_case(elems, sort_forms(flavour, n, rng), tag, rng, frozen=rng.random() < 0.2,
+                               info={"flavour": flavour, "order": order}))
+    lens = list(SORT_LENS)
+    per_len = max(1, int(ctx.n(5, 40) * scale))
+    for n in lens:
+        one(n, "num", "few", "sort-len")                       # int/float twins, few distinct keys, random order
+        one(n, rng.choice(["tuple1", "tuple2", "list1", "nested"]), "random", "sort-len")
+        for _ in range(per_len):
+            one(n, rng.choice(SORT_FLAVOURS), rng.choice(SORT_ORDERS), "sort-len")
+    for n in SORT_LENS_LONG:
+        one(n, "num", "few", "sort-long")
+        for _ in range(max(1, int(ctx.n(2, 12) * scale))):
+            one(n, rng.choice(SORT_FLAVOURS), rng.choice(SORT_ORDERS), "sort-long")
+    if not ctx.quick():
+        for n in SORT_LENS_HUGE:
+            one(n, "num", "few", "sort-huge")
+            for _ in range(max(1, int(3 * scale))):
+                one(n, rng.choice(SORT_FLAVOURS), rng.choice(SORT_ORDERS), "sort-huge")
+    for _ in range(int(ctx.n(60, 800) * scale)):
+        one(rng.randint(0, 200), rng.choice(SORT_FLAVOURS), rng.choice(SORT_ORDERS), "sort-rand")
+    # one element of another type among n - 1 numbers: every sort / min / max must refuse (one observation per case, so
+    # that a panic of the library is attributed to the observation that caused it)
+    for n in [2, 3, 17, 20, 21, 33, 64, 100]:
+        elems = make_elems("num", rank_seq(n - 1, rng.choice(["random", "sorted", "reversed"]), rng), rng)
+        elems.insert(rng.choice([0, n // 2, n - 1, rng.randrange(n)]), ("str", "s"))
+        for f in sort_forms("num", n, rng, expect_err=True):
+            cases.append(sort_case(elems, [f], "sort-odd-one-out", None, info={"flavour": "odd-one-out", "order": "random", "expect_err": True}))
+    # the known non-transitive neighbourhood of 2^53 (F3): recorded, classified as the known finding
+    for n in [3, 20, 21, 33, 64]:
+        pool = [("int", P53 + 1), ("float", f2bits(float(P53))), ("int", P53)]
+        if rng.random() < 0.5:
+            pool += [("int", P53 + 2), ("float", f2bits(float(P53 + 2))), ("int", P53 + 3), ("int", P53 - 1)]
+        elems = [rng.choice(pool) for _ in range(n)]
+        for rev in (False, True):
+            cases.append(sort_case(elems, [{"kind": "sorted", "key": None, "rev": rev, "out": "elems", "it": "XS"}], "sort-f3", None,
+                                   info={"flavour": "f3", "order": "random"}))
+    return cases
+
+
+def any_f3(elems):
+    seen = {}
+    for e in elems:
+        seen.setdefault(repr(e), e)
+    ds = list(seen.values())
+    return any(has_f3(x, y) for x in ds for y in ds)
+
+
+def norm_abs(v):
+    """NaN payloads are not distinguished."""
+    if v[0] == "float" and is_nan_bits(v[1]):
+        return ("float", NAN_BITS)
+    if v[0] in ("tuple", "list"):
+        return (v[0], [norm_abs(x) for x in v[1]])
+    return v
+
+
+def spec_stable_order(keys, rev):
+    """Indices 0..n-1 stably sorted by the specification's order of the keys (Python's sorted is a stable sort)."""
+    sgn = -1 if rev else 1
+    return sorted(range(len(keys)), key=cmp_to_key(lambda x, y: sgn * spec_cmp(keys[x], keys[y])))
+
+
+def spec_first_extremal(keys, want_min):
+    """Index of the first element whose key is minimal (maximal)."""
+    best = 0
+    for i in range(1, len(keys)):
+        c = spec_cmp(keys[best], keys[i])
+        if (c > 0) if want_min else (c < 0):
+            best = i
+    return best
+
+
+def sort_defect(elems, keys, rev, got):
+    """Which clause of `stably ordered permutation` a result (a list of abstract values, one per position) breaks."""
+    if sorted(repr(x) for x in got) != sorted(repr(x) for x in elems):
+        return "not-a-permutation"
+    # recover the key of each output element from the input (elements with the same exact value have the same key)
+    kof = {}
+    for e, k in zip(elems, keys):
+        kof.setdefault(repr(e), k)
+    gk = [kof[repr(x)] for x in got]
+    sgn = -1 if rev else 1
+    if any(sgn * spec_cmp(gk[i], gk[i + 1]) > 0 for i in range(len(gk) - 1)):
+        return "not-ordered"
+    return "not-stable"
+
+
+def show_list(vs, limit=70):
+    s = ", ".join(show(v) for v in vs[:limit])
+    return "[%s%s]" % (s, ", ... (%d more)" % (len(vs) - limit) if len(vs) > limit else "")
+
+
+def out_value(o):
+    if o is None:
+        return ("missing",)
+    if "err" in o:
+        return ("err", o["err"], o.get("msg", "")[:120])
+    return norm_abs(absval(o))
+
+
+def check_sort_case(c, r, nontrivial=None):
+    """One sort case against the specification.  -> (failures [(key, what, extra)], evaluations, elems or None)"""
+    meta = c["meta"]
+    bad = []
+    if r is None or "panic" in r:
+        key = "C09/panic"
+        msg = str((r or {}).get("panic"))
+        intended = [decode_abs(e) for e in meta["intended"]]
+        if "total order" in msg and all(f["kind"] == "sorted" for f in meta["forms"]):
+            # Vec::sort_by detected that the comparison it was given is not a total order and panicked
+            if meta.get("expect_err"):
+                key = K_PANIC_INCOMPARABLE
+            elif any_f3(intended):
+                key = K_PANIC_F3
+            else:
+                key = "C09/sorted-panics/other"
+        return [(key, "%s on %s [n=%d, %s]: no result / panic: %s; specification: %s"
+                 % (c["exprs"], show_list(intended, 24), meta["n"], meta.get("flavour"), str(r)[:200],
+                    "an error (an element cannot be compared with the others)" if meta.get("expect_err") else "the stably sorted list"),
+                 {"impl": r, "exprs": c["exprs"]})], 1, None
+    if "setup_err" in r:
+        return [("C09/construct/setup-error", "sort case could not be set up (%s): %s" % (r.get("where"), r["setup_err"]), {"impl": r})], 1, None
+    d = r["values"][0]
+    intended = [norm_abs(decode_abs(e)) for e in meta["intended"]]
+    elems = [norm_abs(absval(x)) for x in d["v"]] if d.get("t") == "list" else None
+    evals = 1
+    if elems != intended:
+        bad.append(("C09/construct/sort-list", "XS was built as %s, intended %s" % (str(elems)[:200], str(intended)[:200]), {}))
+        return bad, evals, None
+    n = len(elems)
+    expect_err = meta.get("expect_err", False)
+    for fi, (f, o) in enumerate(zip(meta["forms"], r["exprs"])):
+        evals += 1
+        got = out_value(o)
+        src = c["exprs"][fi]
+        keys = [key_fn(f["key"])[1](e) for e in elems] if f.get("key") else elems
+        form = "nokey" if not f.get("key") and f.get("out") != "index" else "key"
+        where = "n=%d, %s elements in %s order" % (n, meta.get("flavour"), meta.get("order"))
+        if expect_err or (n == 0 and f["kind"] != "sorted"):
+            if got[0] != "err" or (expect_err and got[1] != "unsupported"):
+                bad.append(("C09/%s-accepts-incomparable" % f["kind"] if expect_err else "C09/min-max/empty-accepted",
+                            "%s [%s] returned %s, specification: an error" % (src, where, str(got)[:200]), {"expr": src, "form": fi}))
+            continue
+        if f["kind"] == "sorted":
+            order = spec_stable_order(keys, f["rev"])
+            want_elems = [elems[i] for i in order]
+            want = ("list", [("int", i) for i in order] if f["out"] == "index" else want_elems)
+            if nontrivial is not None and n >= 2:
+                # stability is observable: two adjacent results have equal keys but are different values
+                if any(spec_cmp(keys[order[i]], keys[order[i + 1]]) == 0 and elems[order[i]] != elems[order[i + 1]] for i in range(n - 1)) \
+                        or (f["out"] == "index" and any(spec_cmp(keys[order[i]], keys[order[i + 1]]) == 0 for i in range(n - 1))):
+                    nontrivial.add(("sort", sv.digest([meta["intended"], src])[:16]))
+            if got == want:
+                continue
+            if got[0] != "list":
+                bad.append(("C09/sorted/error/%s" % form, "%s [%s] returned %s, specification (stable sort) %s"
+                            % (src, where, str(got)[:200], show_list(want_elems)), {"expr": src, "form": fi, "impl": str(got)[:300]}))
+                continue
+            if f["out"] == "index":
+                ok_idx = all(x[0] == "int" and 0 <= x[1] < n for x in got[1])
+                got_elems = [elems[x[1]] for x in got[1]] if ok_idx else None
+                defect = "not-a-permutation" if not ok_idx or sorted(x[1] for x in got[1]) != list(range(n)) else \
+                    sort_defect(list(range(n)), keys, f["rev"], [x[1] for x in got[1]])
+            else:
+                got_elems = got[1]
+                defect = sort_defect(elems, keys, f["rev"], got_elems)
+            pos = next((i for i, (x, y) in enumerate(zip(got[1], want[1])) if x != y), min(len(got[1]), len(want[1])))
+            bad.append((K_F3 if any_f3(elems) else "C09/sorted/%s/%s" % (defect, form),
+                        "%s [%s] is %s: first difference at position %d: implementation %s, specification (stable sort) %s; "
+                        "input %s; implementation %s; specification %s"
+                        % (src, where, defect.replace("-", " "), pos, show(got[1][pos]) if pos < len(got[1]) else "<end>",
+                           show(want[1][pos]) if pos < len(want[1]) else "<end>", show_list(elems),
+                           show_list(got_elems) if got_elems is not None else str(got)[:300], show_list(want_elems)),
+                        {"expr": src, "form": fi, "first_difference": pos, "defect": defect,
+                         "impl": [show(x) for x in got[1]], "spec": [show(x) for x in want[1]]}))
+        else:
+            want_min = f["kind"] == "min"
+            bi = spec_first_extremal(keys, want_min)
+            if nontrivial is not None and any(i != bi and spec_cmp(keys[i], keys[bi]) == 0 and elems[i] != elems[bi] for i in range(n)):
+                nontrivial.add(("minmax", sv.digest([meta["intended"], src])[:16]))
+            if got == elems[bi]:
+                continue
+            if got[0] == "err":
+                defect = "error"
+            else:
+                idx = [i for i in range(n) if elems[i] == got]
+                defect = "not-an-element" if not idx else ("not-first-among-equals" if any(spec_cmp(keys[i], keys[bi]) == 0 for i in idx) else "not-extremal")
+            bad.append((K_F3 if any_f3(elems) else "C09/min-max/%s/%s" % (defect, f["kind"]),
+                        "%s [%s] = %s, specification (first %s element, as in Python) %s at index %d; input %s"
+                        % (src, where, show(got) if got[0] != "err" else str(got), "minimal" if want_min else "maximal", show(elems[bi]), bi, show_list(elems)),
+                        {"expr": src, "form": fi, "defect": defect, "impl": str(got)[:200], "spec": show(elems[bi])}))
+    return bad, evals, elems
+
+
+def run_sort_cases(ctx, cases):
+    rc, log, res = sv.run_harness_sharded(ctx, "eqhash", [{k: c[k] for k in ("lib", "src", "values", "exprs")} for c in cases], timeout=900)
+    return rc, log, res
+
+
+def shrink_sort_failure(ctx, c, form_index, key):
+    """Delta-debug the list of a failing sort case (literal elements, the one failing observation) keeping the key."""
+    meta = c["meta"]
+    f = dict(meta["forms"][form_index])
+    info = {k: meta.get(k) for k in ("flavour", "order", "expect_err") if k in meta}
+    elems = [decode_abs(e) for e in meta["intended"]]
+
+    def build(es):
+        return sort_case(es, [f], "sort-minimised", None, frozen=False, info=dict(info, minimised_from=meta["n"]))
+
+    def failing(cands):
+        cs = [build(es) for es in cands]
+        _, _, res = run_sort_cases(ctx, cs)
+        out = []
+        for es, cc, rr in zip(cands, cs, res):
+            bad, _, _ = check_sort_case(cc, rr)
+            hit = [b for b in bad if b[0] == key]
+            if hit:
+                out.append((es, cc, hit[0]))
+        return out
+    cur = failing([elems])
+    if not cur:
+        return None
+    best = cur[0]
+    chunk = max(1, len(elems) // 2)
+    rounds = 0
+    while rounds < 60:
+        rounds += 1
+        es = best[0]
+        cands = [es[:i] + es[i + chunk:] for i in range(0, len(es), chunk)]
+        cands = [x for x in cands if (2 if f.get("star") else 0) <= len(x) < len(es)]
+        hits = failing(cands) if cands else []
+        if hits:
+            best = min(hits, key=lambda h: len(h[0]))
+            chunk = max(1, min(chunk, len(best[0]) // 2))
+        elif chunk == 1:
+            break
+        else:
+            chunk = max(1, chunk // 2)
+    return best
+
+
+def coq_rows(ctx, items, prefix, per_eval=1500):
+    """Run Eq/Cases.v's `run` on (case text, size, cost) items, balanced over coqc processes by cost;
+    -> list of rows (None where coqc failed) and an error text."""
+    if not items:
+        return [], None
+    nshard = min(sv.NPROC, len(items))
+    shards = [[] for _ in range(nshard)]
+    load = [0] * nshard
+    for idx in sorted(range(len(items)), key=lambda i: -items[i][2]):
+        k = load.index(min(load))
+        shards[k].append(idx)
+        load[k] += items[idx][2]
+    files = []
+    for s, part in enumerate(shards):
+        text = ("From Coq Require Import ZArith List.\nFrom SV Require Import Int.Model Eq.Model Eq.Cases.\nImport ListNotations.\n"
+                "Open Scope Z_scope.\n")
+        chunk, w = [], 0
+        for idx in part + [None]:
+            if idx is None or (chunk and w + items[idx][1] > per_eval):
+                text += "Eval vm_compute in (run_cases [] [\n%s]).\n" % ";\n".join(chunk)
+                chunk, w = [], 0
+            if idx is not None:
+                chunk.append(items[idx][0])
+                w += items[idx][1]
+        files.append(("%s_%d" % (prefix, s), text))
+    outs = sv.coq_eval_files(ctx, files, timeout=900)
+    rows = [None] * len(items)
+    err = None
+    for part, (rc, out) in zip(shards, outs):
+        vals = sv.coq_values(out) if rc == 0 else None
+        got = [x for v in (vals or []) for x in v]
+        if rc != 0 or len(got) != len(part):
+            err = "coqc failed on model cases (%s rows of %d): %s" % (len(got), len(part), out[-400:])
+            continue
+        for idx, row in zip(part, got):
+            rows[idx] = row
+    return rows, err
+
+
+def evaluate_sort(ctx, cases, with_model=True, model_budget=None):
+    rc, log, res = run_sort_cases(ctx, cases)
+    failures = []
+    if rc != 0:
+        failures.append({"key": "C09/harness-crash", "what": "eqhash exited with %s: %s" % (rc, log[-300:]), "replay": {"rc": rc}})
+    evals = 0
+    nontrivial = set()
+    dist = {}
+    lens = set()
+    observations = {"sorted-nokey": 0, "sorted-key": 0, "min-max": 0}
+    good = []          # (ci, elems) of cases whose list was built as intended
+    for ci, (c, r) in enumerate(zip(cases, res)):
+        meta = c["meta"]
+        dist[meta["tag"]] = dist.get(meta["tag"], 0) + 1
+        lens.add(meta["n"])
+        bad, ev, elems = check_sort_case(c, r, nontrivial)
+        evals += ev
+        for f in meta["forms"]:
+            observations["min-max" if f["kind"] != "sorted" else ("sorted-key" if f.get("key") or f.get("out") == "index" else "sorted-nokey")] += 1
+        for key, what, extra in bad:
+            failures.append({"key": key, "what": what, "replay": {"case": c, **extra}})
+        if elems is not None:
+            good.append(ci)
+    # minimise the first failure of each key that comes from an observation on a list
+    first = {}
+    for f in failures:
+        if f["key"] not in first and "form" in f["replay"] and f["key"].split("/")[1] in ("sorted", "min-max"):
+            first[f["key"]] = f
+    for key, f in first.items():
+        try:
+            best = shrink_sort_failure(ctx, f["replay"]["case"], f["replay"]["form"], key)
+        except Exception as e:  # noqa: BLE001
+            ctx.log("minimisation of %s failed: %r" % (key, e))
+            best = None
+        if best is not None and len(best[0]) < f["replay"]["case"]["meta"]["n"]:
+            es, cc, (k2, what, extra) = best
+            failures.insert(0, {"key": key, "what": "minimised from n=%d to n=%d: %s" % (f["replay"]["case"]["meta"]["n"], len(es), what),
+                                "replay": {"case": cc, **extra}})
+    # the Coq model (isort over the implementation's own representation of the elements) on a sample of the lists
+    mrun = mm = 0
+    if with_model:
+        # cost of a row = number of exact comparisons the model performs (each builds ~1100-bit integers for floats):
+        # lists of up to 33 elements (and the lists that must be refused) go through sorted_model (all-pairs comparability
+        # test + isort), longer ones, which are pairwise comparable in the specification, through isort alone
+        budget = model_budget if model_budget is not None else ctx.n(250000, 5000000)
+        pick = [ci for ci in good if cases[ci]["meta"]["n"] <= SORT_MODEL_MAX_N and cases[ci]["meta"].get("flavour") != "f3"
+                and all(modelable(x) for x in res[ci]["values"][0]["v"])]
+        ctx.rng.shuffle(pick)
+        pick.sort(key=lambda ci: not cases[ci]["meta"]["tag"].startswith("corpus:"))      # corpus lists first
+        items, infos, used = [], [], 0
+        for ci in pick:
+            meta = cases[ci]["meta"]
+            n = meta["n"]
+            descs = res[ci]["values"][0]["v"]
+            full = n <= 33 or meta.get("expect_err")
+            for kname, ks in (("ident", descs), ("fst", [x["v"][0] for x in descs] if descs and all(x["t"] == "tuple" and x["v"] for x in descs) else None)):
+                if ks is None or (kname == "fst" and not any(f.get("key") == "fst" for f in meta["forms"])):
+                    continue
+                aks = [absval(x) for x in ks]
+                for rev in (False, True):
+                    if meta.get("expect_err"):
+                        cost = 2 * n * n
+                    else:
+                        order = spec_stable_order(aks, rev)
+                        cls = [0] * n
+                        for a_, b_ in zip(order, order[1:]):
+                            cls[b_] = cls[a_] + (1 if spec_cmp(aks[a_], aks[b_]) != 0 else 0)
+                        cost = n + sum(1 for i in range(n) for j in range(i + 1, n) if cls[j] < cls[i]) + (n * n if full else 0)
+                    cost += 50
+                    if used + cost > budget or cost > budget // 8:
+                        continue
+                    items.append(("%s %s [%s]" % ("CSort" if full else "CISort", "true" if rev else "false", ";".join(coq_val(x) for x in ks)), n + 5, cost))
+                    infos.append((ci, kname, rev))
+                    used += cost
+        ctx.log("sort: implementation vs specification done; running the Coq model on %d rows (%d lists, %d comparisons)"
+                % (len(items), len({i[0] for i in infos}), used))
+        rows, err = coq_rows(ctx, items, "eqsort")
+        ctx.log("sort: Coq model rows done")
+        if err:
+            failures.append({"key": "C09/model-run-failed", "what": err, "replay": {"out": err}})
+        for row, (ci, kname, rev) in zip(rows, infos):
+            if row is None:
+                continue
+            mrun += 1
+            c, r = cases[ci], res[ci]
+            elems = [norm_abs(absval(x)) for x in r["values"][0]["v"]]
+            n = len(elems)
+            model_err = row == [-1]
+            for fi, (f, o) in enumerate(zip(c["meta"]["forms"], r["exprs"])):
+                fk = f.get("key") or "ident"
+                if fk != kname:
+                    continue
+                got = out_value(o)
+                if f["kind"] == "sorted":
+                    if f["rev"] != rev:
+                        continue
+                    want = ("err", "unsupported") if model_err else ("list", [("int", i) for i in row] if f["out"] == "index" else [elems[i] for i in row])
+                    if (got[:2] if got[0] == "err" else got) != want:
+                        mm += 1
+                        failures.append({"key": "C09/model-differs/sorted", "what": "%s (n=%d) = %s, Coq model (isort) %s"
+                                         % (c["exprs"][fi], n, str(got)[:300], str(want)[:300]), "replay": {"case": c, "form": fi, "expr": c["exprs"][fi]}})
+                elif n >= 1 and rev == (f["kind"] == "max"):
+                    # min = head of the stable ascending sort, max = head of the stable descending sort
+                    want = ("err", "unsupported") if model_err else elems[row[0]]
+                    if (got[:2] if got[0] == "err" else got) != want:
+                        mm += 1
+                        failures.append({"key": "C09/model-differs/min-max", "what": "%s (n=%d) = %s, head of the Coq model's stable sort %s"
+                                         % (c["exprs"][fi], n, str(got)[:200], str(want)[:200]), "replay": {"case": c, "form": fi, "expr": c["exprs"][fi]}})
+    stats = {"evaluations": evals, "nontrivial": nontrivial, "dist": dist, "model_rows": mrun, "model_mismatches": mm,
+             "lengths": sorted(lens), "observations": observations}
+    return failures, stats
+
+
 def table_state(ctx):
     """The hash-route table compiled into the Coq model on this run (read back from Eq/Model.vo)."""
     text = ("From Coq Require Import List.\nFrom SV Require Import Eq.Model.\nImport ListNotations.\n"
@@ -976,51 +1623,78 @@ def correspond(ctx):
     tab = table_state(ctx)
     ctx.log("evaluations=%d model_rows=%d model_mismatches=%d failures=%d hash routes=%s"
             % (st["evaluations"], st["model_rows"], st["model_mismatches"], len(failures), tab))
+    scases = corpus_sort_cases() + gen_sort_cases(ctx)
+    ctx.log("generated %d sort cases (%d observations, lengths %d..%d)"
+            % (len(scases), sum(len(c["exprs"]) for c in scases), min(c["meta"]["n"] for c in scases), max(c["meta"]["n"] for c in scases)))
+    sfailures, sst = evaluate_sort(ctx, scases)
+    ctx.log("sort: evaluations=%d observations=%s model_rows=%d model_mismatches=%d failures=%d"
+            % (sst["evaluations"], sst["observations"], sst["model_rows"], sst["model_mismatches"], len(sfailures)))
+    failures = failures + sfailures
     keys = {}
     for f in failures:
         keys[f["key"]] = keys.get(f["key"], 0) + 1
     if keys:
         ctx.log("failure keys: %s" % keys)
-    slim = lambda c: {"src": c["src"], "lib": c["lib"], "exprs": c["exprs"][:4]}  # noqa: E731
+    slim = lambda c: {"src": c["src"][:1500], "lib": c["lib"] and c["lib"][:1500], "exprs": c["exprs"][:4]}  # noqa: E731
+    dist = dict(st["dist"])
+    dist.update(sst["dist"])
+    big = [c for c in scases if c["meta"]["n"] >= 33 and c["lib"] is None]
     cov = {
-        "evaluations": st["evaluations"],
-        "distinct_nontrivial": len(st["nontrivial"]),
+        "evaluations": st["evaluations"] + sst["evaluations"],
+        "distinct_nontrivial": len(st["nontrivial"]) + len(sst["nontrivial"]),
         "rule": "families of values around integer anchors (0, +-2^31, +-2^53, +-2^63, 2^64, 2^1024 ...), floats incl. NaN/inf/-0.0/subnormals, "
                 "strings (ASCII, non-ASCII, empty, > 16 bytes) and tuples/lists, each value built through a random construction path "
                 "(literal, hex, parsed, arithmetic, shift, int<->float conversion, concat, slice, %-format, .format, join, comprehension, copy, "
                 "frozen in a loaded module); per case all ordered pairs and all triples; evaluations = Rust-level equals/compare/get_hashed "
                 "entries + Starlark expressions + triples + conversions; non-trivial = a pair of distinct variables that are equal in the "
-                "specification and differ in representation or construction path, distinct by the described values",
-        "traces_validated_against_impl": st["model_rows"],
-        "model_mismatches": st["model_mismatches"],
-        "input_distribution": st["dist"],
+                "specification and differ in representation or construction path, distinct by the described values.  "
+                "Sorting: lists of every length in sort_lengths (0..200 around 16/20/21/32/33/64/128, plus 255..1000; thorough up to 5000) "
+                "of int/float twins, +-0.0, tuples/lists of twins, tagged tuples, strings, in random / sorted / reversed / few-keys / runs / "
+                "sawtooth / organ-pipe / nearly-sorted / all-equal / blocks orders; observed: sorted(xs), sorted(xs, reverse=True) without key, "
+                "sorted with key= (identity, -x, abs, constant, wrappers, t[0], t[1], //, %, len, prefixes, index), min/max with and without key, "
+                "each compared as the exact sequence of (value, type) with the specification (stable sort / first extremal element under the "
+                "exact order) and, for a sample, with the Coq model's isort; non-trivial sort observation = stability is observable (two "
+                "neighbours of the expected result have equal keys but are different values), distinct by (input, expression)",
+        "traces_validated_against_impl": st["model_rows"] + sst["model_rows"],
+        "model_mismatches": st["model_mismatches"] + sst["model_mismatches"],
+        "input_distribution": dist,
+        "sort_lengths": sst["lengths"],
+        "sort_observations": sst["observations"],
+        "sort_nontrivial": len(sst["nontrivial"]),
+        "sort_model_rows": sst["model_rows"],
         "strings_hashed": st["strings_hashed"],
         "ints_converted_to_float": st["ints_converted"],
         "extracted_hash_routes": tab,
         "exhaustive": False,
-        "samples": [slim(cases[0]), slim(cases[len(cases) // 2]), slim(cases[-1])],
+        "samples": [slim(cases[0]), slim(cases[len(cases) // 2]), slim(cases[-1])] + [slim(c) for c in big[:1]],
     }
     return {"coverage": cov, "failures": failures}
 
 
 def search(ctx, broken):
-    """A proof obligation or the tie broke: random pairs/triples against the specification with the deep generators."""
+    """A proof obligation or the tie broke: random pairs/triples and sort lists against the specification with the deep generators."""
     old = ctx.tier
     ctx.tier = "thorough"
     try:
         cases = gen_cases(ctx, scale=0.5)
         failures, st = evaluate(ctx, cases, with_model=False)
+        scases = corpus_sort_cases() + gen_sort_cases(ctx, scale=0.5)
+        sfailures, sst = evaluate_sort(ctx, scases, with_model=False)
     finally:
         ctx.tier = old
-    return {"failures": failures, "coverage": {"evaluations": st["evaluations"], "cases": len(cases)}}
+    return {"failures": failures + sfailures,
+            "coverage": {"evaluations": st["evaluations"] + sst["evaluations"], "cases": len(cases), "sort_cases": len(scases)}}
 
 
 def replay(ctx, rep):
     c = (rep.get("replay") or {}).get("case")
     if not c:
         return {"coverage": {}, "failures": []}
-    failures, st = evaluate(ctx, [c])
-    return {"coverage": {"evaluations": st["evaluations"], "distinct_nontrivial": len(st["nontrivial"]), "samples": [c["src"]]}, "failures": failures}
+    if (c.get("meta") or {}).get("kind") == "sort":
+        failures, st = evaluate_sort(ctx, [c])
+    else:
+        failures, st = evaluate(ctx, [c])
+    return {"coverage": {"evaluations": st["evaluations"], "distinct_nontrivial": len(st["nontrivial"]), "samples": [c["src"][:1500]]}, "failures": failures}
 
 
 META = {
